@@ -109,3 +109,47 @@ Example ex_count_sup : exists l, (iter_supermasks 16 40000 = Some l /\ N.of_nat 
 Proof. apply c15_supermasks_count; [discriminate|reflexivity]. Qed.
 Example ex_enumerated : iter_permutations [2; 1; 2] = Some (all_arrangements [2; 1; 2]).
 Proof. apply c15_iter_permutations_enumerated. Qed.
+
+(** ** prefixes, the direct successor description, long sequences *)
+Example ex_sub_take_run : iter_submasks_take 128 (2 ^ 128 - 1) 3 = [2 ^ 128 - 1; 2 ^ 128 - 2; 2 ^ 128 - 3]%N.
+Proof. vm_compute. reflexivity. Qed.
+Example ex_sup_take_run : iter_supermasks_take 64 0 4 = [0; 1; 2; 3]%N.
+Proof. vm_compute. reflexivity. Qed.
+Example ex_sub_take_short_run : iter_submasks_take 8 5 100 = [5; 4; 1; 0]%N.     (* fewer than requested *)
+Proof. vm_compute. reflexivity. Qed.
+Example ex_ip_take_run : iter_permutations_take [3; 1; 2; 1] 3 = [[1; 1; 2; 3]; [1; 1; 3; 2]; [1; 2; 1; 3]].
+Proof. vm_compute. reflexivity. Qed.
+Example ex_sub_take : iter_submasks_take 8 13 3 = firstn 3 [13; 12; 9; 8; 5; 4; 1; 0]%N.
+Proof. apply c15_submasks_take. vm_compute. reflexivity. Qed.
+Example ex_sup_take : iter_supermasks_take 8 110 3 = firstn 3 [110; 111; 126; 127; 238; 239; 254; 255]%N.
+Proof. apply c15_supermasks_take. vm_compute. reflexivity. Qed.
+Example ex_ip_take : iter_permutations_take [2; 1; 2] 2 = firstn 2 [[1; 2; 2]; [2; 1; 2]; [2; 2; 1]].
+Proof. apply c15_iter_permutations_take. vm_compute. reflexivity. Qed.
+Example ex_sub_take_closed :
+  iter_submasks_take 128 (2 ^ 127 + 5) 3 = sub_closed (2 ^ 127 + 5) (2 ^ popcount (2 ^ 127 + 5) - 1) 3%nat.
+Proof. apply c15_submasks_take_closed. reflexivity. Qed.
+Example ex_sup_take_closed :
+  iter_supermasks_take 16 40000 3 = sup_closed 40000 (2 ^ 16 - 1 - 40000) (2 ^ popcount (2 ^ 16 - 1 - 40000) - 1) 0 3%nat.
+Proof. apply c15_supermasks_take_closed. reflexivity. Qed.
+Example ex_direct : spec_next_direct [1; 2; 2; 1] true [2; 1; 1; 2] = true.
+Proof. apply c15_next_perm_direct. vm_compute. reflexivity. Qed.
+Example ex_direct_rejects : spec_next_direct [1; 2; 3] true [2; 1; 3] = false.   (* not the rightmost pivot *)
+Proof. vm_compute. reflexivity. Qed.
+Example ex_direct_agrees : spec_next_direct [1; 2; 3] true [2; 1; 3] = spec_next [1; 2; 3] true [2; 1; 3].
+Proof. apply c15_spec_next_direct_agrees. Qed.
+Example ex_rle : rle [(5, 3); (-1, 2); (7, 0); (4, 1)] = [5; 5; 5; -1; -1; 4].
+Proof. vm_compute. reflexivity. Qed.
+Example ex_unpack_sub_top : unpack_sub_top 13 [0; 1; 2; 7] = [13; 12; 9; 0].
+Proof. vm_compute. reflexivity. Qed.
+(** a sequence of 300 elements: the pivot in front of a long non-increasing tail that contains copies of it *)
+Example ex_np_long_run :
+  next_permutation (rle [(0, 100); (1, 1); (2, 99); (1, 50); (0, 50)]) = (true, rle [(0, 100); (2, 1); (0, 50); (1, 51); (2, 98)]).
+Proof. vm_compute. reflexivity. Qed.
+Example ex_model_implies_spec_long :
+  spec_check (CNext (rle [(0, 100); (1, 1); (2, 99); (1, 50); (0, 50)]) true (rle [(0, 100); (2, 1); (0, 50); (1, 51); (2, 98)])) = true.
+Proof. apply c15_model_implies_spec; [exact I|vm_compute; reflexivity]. Qed.
+Example ex_model_implies_spec_pre : spec_check (CSubPre 128 (2 ^ 128 - 1) 3 [2 ^ 128 - 1; 2 ^ 128 - 2; 2 ^ 128 - 3]) = true.
+Proof. apply c15_model_implies_spec; [cbn [in_scope]; lia|vm_compute; reflexivity]. Qed.
+Example ex_model_implies_spec_ippre :
+  spec_check (CIterPre [3; 1; 2; 1] 3 [[1; 1; 2; 3]; [1; 1; 3; 2]; [1; 2; 1; 3]]) = true.
+Proof. apply c15_model_implies_spec; [exact I|vm_compute; reflexivity]. Qed.
